@@ -23,6 +23,48 @@ pub enum Task {
     /// many short construct-update-finalize rounds in a tight loop (stresses constructors,
     /// finalisation and any process-global state): lib 0 = Rust crate, 1 = C assembly build, 2 = C intrinsics build
     Burst { lib: u8, init: BurstInit, len: u16, content: crate::gen::Content, iters: u16 },
+    /// one extended-output reader consumed in `pieces` small pieces of `piece` bytes through fill (how 0),
+    /// io::Read::read (1), read_exact (2) or the digest XofReader trait (3); the concatenation must be S[0..]
+    XofBurst { init: BurstInit, len: u16, content: crate::gen::Content, how: u8, piece: u8, pieces: u16 },
+}
+
+fn run_xof_burst(init: &BurstInit, len: u16, content: &crate::gen::Content, how: u8, piece: u8, pieces: u16) -> Result<(), String> {
+    use std::io::Read;
+    let data = content.expand(len as usize);
+    let kf = match init {
+        BurstInit::Plain => b3spec::KeyFlags::hash(),
+        BurstInit::Keyed(k) => b3spec::KeyFlags::keyed(k),
+        BurstInit::Derive(c) => b3spec::KeyFlags::derive_key(&c.bytes()),
+    };
+    let piece = core::cmp::max(1, piece as usize);
+    let total = piece * pieces as usize;
+    let want = b3spec::root(&kf, &data).xof(0, total);
+    let mut h = match init {
+        BurstInit::Plain => blake3::Hasher::new(),
+        BurstInit::Keyed(k) => blake3::Hasher::new_keyed(k),
+        BurstInit::Derive(c) => blake3::Hasher::new_derive_key(&c.string()),
+    };
+    h.update(&data);
+    let mut r = h.finalize_xof();
+    let mut got = vec![0u8; total];
+    for (i, out) in got.chunks_mut(piece).enumerate() {
+        match how % 4 {
+            0 => r.fill(out),
+            1 => {
+                let n = r.read(out).map_err(|e| format!("OutputReader::read failed: {}", e))?;
+                if n != out.len() {
+                    return Err(format!("OutputReader::read returned {} for a {}-byte buffer (piece {})", n, out.len(), i));
+                }
+            }
+            2 => r.read_exact(out).map_err(|e| format!("OutputReader::read_exact failed: {}", e))?,
+            _ => digest::XofReader::read(&mut r, out),
+        }
+    }
+    if got != want {
+        let at = got.iter().zip(want.iter()).position(|(a, b)| a != b).unwrap_or(0);
+        return Err(format!("extended output read in {} pieces of {} bytes (how {}) differs from what it yields alone at byte {} ({:?}, {} input bytes)", pieces, piece, how % 4, at, init, len));
+    }
+    Ok(())
 }
 
 #[derive(Clone, Debug, Serialize, Deserialize)]
@@ -121,6 +163,13 @@ fn run_task(t: &Task) -> Result<(), String> {
         }
         #[cfg(not(feature = "cshim"))]
         Task::CHist(_) => Ok(()),
+        Task::XofBurst { init, len, content, how, piece, pieces } => {
+            let r = std::panic::catch_unwind(|| run_xof_burst(init, *len, content, *how, *piece, *pieces));
+            match r {
+                Ok(x) => x,
+                Err(_) => Err("panic in xof burst".to_string()),
+            }
+        }
         Task::Burst { lib, init, len, content, iters } => {
             let r = std::panic::catch_unwind(|| run_burst(*lib, init, *len, content, *iters));
             match r {
@@ -506,6 +555,7 @@ fn task_weight(t: &Task) -> usize {
         #[cfg(not(feature = "cshim"))]
         Task::CHist(_) => 0,
         Task::Burst { len, iters, .. } => *len as usize * *iters as usize,
+        Task::XofBurst { piece, pieces, .. } => *piece as usize * *pieces as usize,
     }
 }
 
@@ -523,9 +573,19 @@ pub fn classify(c: &Case) -> Classes {
         .tag(has_rust, "Rust-instances")
         .tag(has_c && has_rust, "both-libraries-in-one-process")
         .tag(c.programs.iter().flatten().any(|t| matches!(t, Task::Burst { .. })), "burst-task")
+        .tag(c.programs.iter().filter(|p| p.iter().any(|t| matches!(t, Task::XofBurst { .. }))).count() >= 2, ">=2-threads-reading-xof-in-small-pieces")
         .tag(derive_bursts >= 2, ">=2-threads-bursting-derive_key")
         .tag(c.programs.iter().any(|p| matches!(p.first(), Some(Task::CHist(_)))), "first-call-is-C(detection-race)")
         .tag(c.programs.iter().filter(|p| p.iter().any(|t| matches!(t, Task::Hist(h) if matches!(h.ops.first().and_then(|o| o.absorbing()), Some(crate::hist::Size::Abs(n)) if *n > 1_048_576)))).count() >= 2, ">=2-threads-streaming->1MiB")
+}
+
+fn burst_init2() -> BoxedStrategy<BurstInit> {
+    prop_oneof![
+        3 => Just(BurstInit::Plain),
+        2 => gen::key32().prop_map(BurstInit::Keyed),
+        2 => gen::ctx_spec(120, false).prop_map(BurstInit::Derive),
+    ]
+    .boxed()
 }
 
 fn task_strategy() -> BoxedStrategy<Task> {
@@ -546,6 +606,8 @@ fn task_strategy() -> BoxedStrategy<Task> {
     ];
     let burst = (0u8..3, burst_init, prop_oneof![0u16..=200, 0u16..=5000], gen::content(), 50u16..=400)
         .prop_map(|(lib, init, len, content, iters)| Task::Burst { lib, init, len, content, iters });
+    let xof_burst = (burst_init2(), prop_oneof![0u16..=200, 0u16..=5000], gen::content(), 0u8..4, prop_oneof![3 => 1u8..=63, 1 => 64u8..=200, 1 => crate::gen::select(vec![1u8, 4, 8, 16, 32, 64])], 100u16..=1500)
+        .prop_map(|(init, len, content, how, piece, pieces)| Task::XofBurst { init, len, content, how, piece, pieces });
     #[cfg(feature = "cshim")]
     {
         let ch = crate::props::c06::strategy(Tier::Quick).prop_map(|mut x| {
@@ -553,11 +615,11 @@ fn task_strategy() -> BoxedStrategy<Task> {
             x.ops.truncate(14);
             Task::CHist(x)
         });
-        prop_oneof![3 => oneshot, 2 => hist_, 2 => xof, 3 => ch, 5 => burst].boxed()
+        prop_oneof![3 => oneshot, 2 => hist_, 2 => xof, 3 => ch, 5 => burst, 3 => xof_burst].boxed()
     }
     #[cfg(not(feature = "cshim"))]
     {
-        prop_oneof![3 => oneshot, 2 => hist_, 2 => xof, 4 => burst].boxed()
+        prop_oneof![3 => oneshot, 2 => hist_, 2 => xof, 4 => burst, 3 => xof_burst].boxed()
     }
 }
 
@@ -600,13 +662,19 @@ fn strategy(tier: Tier) -> BoxedStrategy<Case> {
     let streams = crate::gen::select(vec![2usize, 3, 4, 8])
         .prop_flat_map(move |n| prop::collection::vec(prop::collection::vec(big_stream_task(), 1..=2), n..=n))
         .prop_map(move |programs| Case { programs, repeats: core::cmp::max(3, reps / 4) });
-    prop_oneof![6 => mixed, 1 => streams].boxed()
+    // every thread consumes extended output in small pieces at the same time
+    let reader_task = (prop_oneof![5 => Just(BurstInit::Plain), 1 => gen::key32().prop_map(BurstInit::Keyed), 1 => gen::ctx_spec(60, false).prop_map(BurstInit::Derive)], 0u16..=3000, gen::content(), prop_oneof![1 => Just(0u8), 3 => Just(1u8), 2 => Just(2u8), 2 => Just(3u8)], prop_oneof![4 => 1u8..=32, 1 => 33u8..=64], 200u16..=600)
+        .prop_map(|(init, len, content, how, piece, pieces)| Task::XofBurst { init, len, content, how, piece, pieces });
+    let readers = crate::gen::select(vec![2usize, 4, 8, 12, 16])
+        .prop_flat_map(move |n| prop::collection::vec(prop::collection::vec(reader_task.clone(), 2..=3), n..=n))
+        .prop_map(move |programs| Case { programs, repeats: reps });
+    prop_oneof![6 => mixed, 1 => streams, 1 => readers].boxed()
 }
 
 pub fn subs() -> Vec<Box<dyn DynSub>> {
     vec![Box::new(PropSub::<Case> {
         name: "threads-fresh-process",
-        rule: "proptest: T in {2,4,8,16,32} threads, each with its own program of 1-3 tasks on its own instances (C01 one-shots, C02 histories incl. update_rayon/mmap, C03 XOF-reader histories, C06 histories on C hashers of both library builds with CPU detection left to race, bursts of 50-400 construct-update-finalize rounds in every mode on either library, and long streams of 60 KiB-3 MiB through update_reader/io::copy/update_mmap(_rayon)/update_rayon/write_all; one case in seven has every thread streaming at once), started together by a barrier in a FRESH child process and repeated 12x (quick) / 40x (thorough); oracle: every output of every thread equals the spec model (what the program yields alone) and the process exits cleanly; non-trivial = >=2 threads whose programs both hash > 16 chunks",
+        rule: "proptest: T in {2,4,8,16,32} threads, each with its own program of 1-3 tasks on its own instances (C01 one-shots, C02 histories incl. update_rayon/mmap, C03 XOF-reader histories, C06 histories on C hashers of both library builds with CPU detection left to race, bursts of 50-400 construct-update-finalize rounds in every mode on either library, extended-output readers consumed in 100-1500 small pieces through fill / io::Read / read_exact / the XofReader trait, and long streams of 60 KiB-3 MiB through update_reader/io::copy/update_mmap(_rayon)/update_rayon/write_all; one case in eight has every thread streaming at once, one in eight every thread reading extended output in small pieces at once), started together by a barrier in a FRESH child process and repeated 12x (quick) / 40x (thorough); oracle: every output of every thread equals the spec model (what the program yields alone) and the process exits cleanly; non-trivial = >=2 threads whose programs both hash > 16 chunks",
         cases: (320, 4_000),
         strategy,
         classify,
